@@ -83,9 +83,25 @@ func checkC20(c *Check) {
 		entries = append(entries, f)
 	}
 	// the interactive evaluator debugger (eval.repl) is outside the quantifier
+	// (found by role: the methods of the pkg/eval type that holds an interactive
+	// line reader, a *bufio.Scanner or *bufio.Reader field)
 	for _, f := range p.RepoFuncs() {
-		if strings.HasPrefix(fnName(f), "(*pkg/eval.repl).") && f.Name() == "run" {
-			excluded = append(excluded, f)
+		if fnPkgPath(f) != repoMod+"/pkg/eval" || f.Parent() != nil || f.Signature.Recv() == nil {
+			continue
+		}
+		rn := namedOf(f.Signature.Recv().Type())
+		if rn == nil {
+			continue
+		}
+		st, ok := rn.Underlying().(*types.Struct)
+		if !ok {
+			continue
+		}
+		for i := 0; i < st.NumFields(); i++ {
+			if typeIs(st.Field(i).Type(), "bufio", "Scanner") || typeIs(st.Field(i).Type(), "bufio", "Reader") {
+				excluded = append(excluded, f)
+				break
+			}
 		}
 	}
 	c.Counts["command_execute_entries"] = n
